@@ -7,7 +7,9 @@ Two bodies with the same canonical form differ only by refactorings that cannot 
   * `p.add(n)` versus `p.offset(n)` (raw pointers: the same function for a non-negative literal);
   * `Self::f(x, ..)` / `<this impl's type>::f(x, ..)` versus `x.f(..)` for the first argument `self` / `this` /
     a parameter (inherent methods are found before any auto-deref);
-  * `_` versus `(_, _)` as the last match arm.
+  * `_` versus `(_, _)` as the last match arm;
+  * a call of a private helper function of the same file that the reference body does not call, versus the helper's
+    body in its place (see inline_helpers for the conditions).
 Anything else is a difference.  The canonical form is a nested tuple; it is only ever compared for equality."""
 from rustparse import *
 
@@ -73,7 +75,7 @@ def _first_leaf(e):
 def _count(e, name):
     if isinstance(e, tuple):
         if e and e[0] == 'path' and e[1] == [name]: return 1
-        if e and e[0] == 'macro': return 5 if name in (e[3] if len(e) > 3 and isinstance(e[3], str) else '') else 0   # opaque: never inline into it
+        if e and e[0] == 'macro': return 5 if re.search(r'\b%s\b' % re.escape(name), e[3] if len(e) > 3 and isinstance(e[3], str) else '') else 0   # opaque: never inline into it
         if e and e[0] == 'closure': return 5 if _count(e[2], name) else 0                                            # not across a closure
         return sum(_count(x, name) for x in e)
     if isinstance(e, list): return sum(_count(x, name) for x in e)
@@ -200,9 +202,95 @@ def _alpha(e, params):
     env0 = extend({}, [p.strip()[4:].strip() if p.strip().startswith('mut ') else p.strip() for p in params if re.match(r'^(mut )?[a-z_][A-Za-z0-9_]*$', p.strip())])
     return ren(e, env0)
 
-def canon(body_toks, params=(), self_heads=('Self',)):
+
+# ----------------------------------------------------------------------------
+# private helper functions: a call is replaced by the helper's body
+# ----------------------------------------------------------------------------
+def _idents(e, out=None):
+    if out is None: out = set()
+    if isinstance(e, tuple):
+        if e and e[0] == 'path': out.update(x for x in e[1] if isinstance(x, str))
+        for x in e: _idents(x, out)
+    elif isinstance(e, list):
+        for x in e: _idents(x, out)
+    return out
+
+def _bound_names(e, out=None):
+    """names bound anywhere inside (let, closure parameters, for variables, match-arm patterns)"""
+    if out is None: out = set()
+    def pat(p):
+        if isinstance(p, str): out.update(n for n in re.findall(r'[A-Za-z_][A-Za-z0-9_]*', p) if n[0].islower() or n[0] == '_')
+        elif isinstance(p, (list, tuple)):
+            for x in p: pat(x)
+    if isinstance(e, tuple) and e:
+        if e[0] == 'block':
+            for st in e[1]:
+                if st[0] == 'let': pat(st[1]); _bound_names(st[3], out)
+                elif st[0] == 'expr': _bound_names(st[1], out)
+            _bound_names(e[2], out); return out
+        if e[0] in ('closure', 'for'): pat(e[1])
+        if e[0] == 'match':
+            for a in e[2]: pat(a[0])
+        for x in e[1:]: _bound_names(x, out)
+    elif isinstance(e, list):
+        for x in e: _bound_names(x, out)
+    return out
+
+def _has_tag(e, tags):
+    if isinstance(e, tuple):
+        if e and isinstance(e[0], str) and e[0] in tags: return True
+        return any(_has_tag(x, tags) for x in e)
+    if isinstance(e, list): return any(_has_tag(x, tags) for x in e)
+    return False
+
+def _place_kind(a):
+    """'var' for a variable, 'place' for a field chain / reference of a variable / literal, None otherwise"""
+    a = strip(a)
+    if a is None: return None
+    if a[0] == 'path' and len(a[1]) == 1 and a[1][0][0].islower(): return 'var'
+    if a[0] == 'lit': return 'place'
+    if a[0] == 'field': return 'place' if _place_kind(a[1]) else None
+    if a[0] == 'ref': return 'place' if _place_kind(a[2]) else None
+    return None
+
+def inline_helpers(e, helpers, caller_types=None, depth=0):
+    """helpers: {path tuple: dict(params=[(name, type text)], body=AST)} - private functions of the same file that the
+    body compared against does not call.  A call `h(a, b)` whose arguments are variables, field chains, references of
+    those or literals is replaced by h's body with the parameters replaced by the arguments, provided that
+      * h has no `return`, `?`, `break`, `continue`, loop labels or macros hiding control flow (`return`/`?` inside),
+      * no name bound inside h occurs in an argument (no capture),
+      * a field-chain argument is only passed to a helper whose body assigns nothing (it is re-read at each use),
+      * where the argument is a parameter of the caller, its declared type is the parameter's declared type.
+    Evaluation order and the number of evaluations of anything with an effect are then unchanged."""
+    if isinstance(e, list): return [inline_helpers(x, helpers, caller_types, depth) for x in e]
+    if not isinstance(e, tuple) or not e: return e
+    e = tuple(inline_helpers(x, helpers, caller_types, depth) for x in e)
+    if e[0] == 'call' and isinstance(e[1], tuple) and e[1] and e[1][0] == 'path' and depth < 3:
+        h = helpers.get(tuple(e[1][1]))
+        if h is not None and len(h['params']) == len(e[2]):
+            body = h['body']
+            kinds = [_place_kind(a) for a in e[2]]
+            if all(kinds) and not _has_tag(body, ('return', 'try', 'break', 'continue', 'macro', 'loop', 'while', 'await')):
+                if 'place' in kinds and _has_tag(body, ('assign',)): return e
+                bound = _bound_names(body); argids = set()
+                for a in e[2]: _idents(a, argids)
+                if bound & argids: return e
+                pnames = [pn for pn, _ in h['params']]
+                if len(set(pnames)) != len(pnames) or (set(pnames) & bound): return e
+                for (pn, pty), a in zip(h['params'], e[2]):
+                    a0 = strip(a)
+                    if caller_types is not None and a0[0] == 'path' and a0[1][0] in caller_types and caller_types[a0[1][0]] != pty: return e
+                # simultaneous substitution
+                tmp = body
+                for i, pn in enumerate(pnames): tmp = _subst(tmp, pn, ('path', ['\x00%d' % i], [[]]))
+                for i, a in enumerate(e[2]): tmp = _subst(tmp, '\x00%d' % i, ('paren', a))
+                return inline_helpers(tmp, helpers, caller_types, depth + 1)
+    return e
+
+def canon(body_toks, params=(), self_heads=('Self',), helpers=None, caller_types=None):
     """canonical form of a function body given as tokens"""
     e = parse_block_tokens(list(body_toks))
+    if helpers: e = inline_helpers(e, helpers, caller_types)
     e = _strip_all(e)
     e = _rewrite(e, set(self_heads))
     e = _inline_lets(e)
